@@ -923,6 +923,56 @@ pub fn real_stream_check(specs: &[HashSpec], c: &RealStream, info: &mut CaseInfo
     }
 }
 
+#[derive(Clone, Debug, Serialize, Deserialize)]
+pub struct OneCall {
+    pub hash: String,
+    /// the message is 2^exp + tail bytes long and is handed over in ONE update call
+    pub exp: u8,
+    pub tail: u16,
+    pub seed: u64,
+}
+
+/// A message that crosses a counter word boundary inside a single `update` call (arithmetic on the
+/// length of the call itself - e.g. blocks * block_bits - must not be done in a narrow type). Oracle
+/// (metamorphic): the digest equals the digest of the same bytes fed in 1 MiB pieces; that piecewise path
+/// is what the counter-hook cases and the real streams compare with the reference model.
+pub fn one_call_check(specs: &[HashSpec], c: &OneCall, info: &mut CaseInfo) -> Result<(), Fail> {
+    let spec = find(specs, &c.hash).ok_or_else(|| Fail::new("HARNESS:unknown-hash", c.hash.clone()))?;
+    let len = (1usize << c.exp) + c.tail as usize;
+    // cheap deterministic content: a 1 MiB pseudo-random tile repeated
+    let tile = gen::expand(c.seed, 1 << 20, 0);
+    let mut data = Vec::with_capacity(len);
+    while data.len() < len {
+        let n = (len - data.len()).min(tile.len());
+        data.extend_from_slice(&tile[..n]);
+    }
+    info.nontrivial = true;
+    info.label(format!("single update of 2^{} bytes {}", c.exp, spec.name));
+    let pieces = guard(|| {
+        let mut h = (spec.make)();
+        for ch in data.chunks(1 << 20) {
+            h.update(ch);
+        }
+        h.finalize_box()
+    });
+    let one = guard(|| {
+        let mut h = (spec.make)();
+        h.update(&data);
+        h.finalize_box()
+    });
+    match (pieces, one) {
+        (Err(p), _) => Err(Fail::new(format!("C17:{}:pieces:PANIC", spec.name), p)),
+        (_, Err(p)) => Err(Fail::new(format!("C17:{}:onecall:PANIC", spec.name), format!("one update call of {} bytes panicked: {}", len, p))),
+        (Ok(a), Ok(b)) => {
+            if a != b {
+                Err(Fail::new(format!("C17:{}:onecall:WRONG", spec.name), format!("digest of {} bytes in one update call differs from the same bytes in 1 MiB pieces", len)))
+            } else {
+                Ok(())
+            }
+        }
+    }
+}
+
 pub fn c17_specs() -> Vec<HashSpec> {
     c08_hashes()
 }
@@ -955,4 +1005,17 @@ pub fn run_c17(ctx: &mut Ctx) {
     }
     let s3 = specs.clone();
     ctx.run_list("real-stream", real, |c, i| real_stream_check(&s3, c, i));
+    // one update call that itself crosses 2^32 bits (BLAKE-224/256, JH) / 2^32 bytes (Skein, thorough only)
+    let mut calls = vec![
+        OneCall { hash: "Blake256".into(), exp: 29, tail: 197, seed: ctx.seed },
+        OneCall { hash: "Blake224".into(), exp: 29, tail: 0, seed: ctx.seed ^ 1 },
+    ];
+    if !quick {
+        calls.push(OneCall { hash: "Jh256".into(), exp: 29, tail: 33, seed: ctx.seed ^ 2 });
+        calls.push(OneCall { hash: "Skein512<64>".into(), exp: 32, tail: 100, seed: ctx.seed ^ 3 });
+        calls.push(OneCall { hash: "Skein256<32>".into(), exp: 32, tail: 0, seed: ctx.seed ^ 4 });
+        calls.push(OneCall { hash: "Blake512".into(), exp: 29, tail: 5, seed: ctx.seed ^ 5 });
+    }
+    let s4 = specs.clone();
+    ctx.run_list("one-call", calls, |c, i| one_call_check(&s4, c, i));
 }
